@@ -938,7 +938,7 @@ def check_C02(chk):
     scens += fam_outage(chk.tier, chk.seed, "c02o", 6 if chk.tier == "quick" else 40)
     scens += fam_park(chk.tier, "c02k", variants=("plain", "special"), seed=chk.seed)
     scens += fam_wide_faults(chk.tier, chk.seed, "c02")
-    scens += fam_exhaustive(chk.tier, "c02x", variants=("pressure",), depth=3, sample=900 if chk.tier == "quick" else None, seed=chk.seed)
+    scens += fam_exhaustive(chk.tier, "c02x", variants=("pressure",), depth=3, sample=900 if chk.tier == "quick" else 1818, seed=chk.seed)
     scens += fam_regress()
     res, st = Q.run_batch(scens, chk.wd, known=chk.known_tags(), par=12)
     chk.consume(res, st, props=("C02",))
@@ -1008,7 +1008,7 @@ def check_C04(chk):
     scens += fam_exhaustive_par(chk.tier, "c04p", seed=chk.seed)
     scens += fam_park(chk.tier, "c04k", variants=("plain", "backing"), seed=chk.seed)
     scens += fam_exhaustive(chk.tier, "c04x", variants=("pressure",), depth=2 if chk.tier == "quick" else 3, seed=chk.seed)
-    scens += fam_exhaustive_par(chk.tier, "c04y", variants=("pressure",), parn=2, seeds=(1,), sample=500 if chk.tier == "quick" else None, seed=chk.seed)
+    scens += fam_exhaustive_par(chk.tier, "c04y", variants=("pressure",), parn=2, seeds=(1,), sample=500 if chk.tier == "quick" else 1500, seed=chk.seed)
     scens += fam_regress()
     res, st = Q.run_batch(scens, chk.wd, mode="crash", known=chk.known_tags(), par=14)
     chk.consume(res, st, props=("C04",))
@@ -1033,7 +1033,7 @@ def check_C05(chk):
     scens += fam_exhaustive_par(chk.tier, "c05p", seed=chk.seed)
     scens += fam_park(chk.tier, "c05k", variants=("plain", "backing"), seed=chk.seed)
     scens += fam_exhaustive(chk.tier, "c05x", variants=("pressure",), depth=2 if chk.tier == "quick" else 3, seed=chk.seed)
-    scens += fam_exhaustive_par(chk.tier, "c05y", variants=("pressure",), parn=2, seeds=(1,), sample=500 if chk.tier == "quick" else None, seed=chk.seed)
+    scens += fam_exhaustive_par(chk.tier, "c05y", variants=("pressure",), parn=2, seeds=(1,), sample=500 if chk.tier == "quick" else 1500, seed=chk.seed)
     scens += fam_regress()
     res, st = Q.run_batch(scens, chk.wd, mode="crash", known=chk.known_tags(), par=14)
     chk.consume(res, st, props=("C05",))
@@ -1052,8 +1052,8 @@ def check_C06(chk):
     scens += fam_cowread(chk.tier, chk.seed, "c06r", 30 if chk.tier == "quick" else 500)
     scens += fam_exhaustive_par(chk.tier, "c06p", seed=chk.seed, seeds=(1, 2, 3))
     scens += fam_park(chk.tier, "c06k", seed=chk.seed)
-    scens += fam_exhaustive_par(chk.tier, "c06x", variants=("pressure",), parn=2, seeds=(1,) if chk.tier == "quick" else (1, 2, 3), sample=300 if chk.tier == "quick" else None, seed=chk.seed)
-    scens += fam_park(chk.tier, "c06y", variants=("pressure",), nths=(2, 5, 8) if chk.tier == "quick" else None, light=chk.tier == "quick", seed=chk.seed)
+    scens += fam_exhaustive_par(chk.tier, "c06x", variants=("pressure",), parn=2, seeds=(1,) if chk.tier == "quick" else (1, 2), sample=300 if chk.tier == "quick" else 1500, seed=chk.seed)
+    scens += fam_park(chk.tier, "c06y", variants=("pressure",), nths=(2, 5, 8) if chk.tier == "quick" else (1, 2, 3, 5, 7, 9), light=True, seed=chk.seed)
     scens += fam_regress()
     res, st = Q.run_batch(scens, chk.wd, known=chk.known_tags(), par=14)
     chk.consume(res, st, props=("C06", "C01", "C02"))
@@ -1423,7 +1423,7 @@ def check_C07(chk):
     scens += gr
     scens += fam_exhaustive_par(chk.tier, "c07p", seed=chk.seed, sweep=3 if chk.tier == "quick" else 5)
     scens += fam_park(chk.tier, "c07k", seed=chk.seed)
-    scens += fam_exhaustive_par(chk.tier, "c07x", variants=("pressure",), parn=2, seeds=(1,), sweep=3, sample=300 if chk.tier == "quick" else None, seed=chk.seed)
+    scens += fam_exhaustive_par(chk.tier, "c07x", variants=("pressure",), parn=2, seeds=(1,), sweep=3, sample=300 if chk.tier == "quick" else 1500, seed=chk.seed)
     scens += fam_regress()
     res, st = Q.run_batch(scens, chk.wd, known=chk.known_tags(), par=14)
     chk.consume(res, st, props=("C07", "PANIC"))
@@ -1455,7 +1455,7 @@ def check_C18(chk):
     scens += fam_exhaustive(chk.tier, "c18e", seed=chk.seed)
     scens += fam_exhaustive_par(chk.tier, "c18p", seed=chk.seed, seeds=(1, 2, 3), probe=True, sweep=10 if chk.tier == "quick" else 40)
     scens += fam_park(chk.tier, "c18k", seed=chk.seed)
-    scens += fam_exhaustive_par(chk.tier, "c18x", variants=("pressure",), parn=2, seeds=(1,), sample=300 if chk.tier == "quick" else None, seed=chk.seed)
+    scens += fam_exhaustive_par(chk.tier, "c18x", variants=("pressure",), parn=2, seeds=(1,), sample=300 if chk.tier == "quick" else 1500, seed=chk.seed)
     scens += fam_regress()
     res, st = Q.run_batch(scens, chk.wd, known=chk.known_tags(), par=14)
     chk.consume(res, st, props=("C18",))
@@ -1725,6 +1725,18 @@ def check_C09(chk):
                         steps += [{"op": "write", "gb": c * bpc + rng.randrange(bpc), "n": 1}, {"op": "sweep"}, {"op": "flush"},
                                   {"op": "reopen"}, {"op": "mapall"}, {"op": "sweep"}]
                     scens.append(S.mk(f"c09b-cb{cb}-ro{ro}-v{version}-{'def' if defaults else 'cus'}", geo, images, steps))
+    # (a2) version 2 overlays (72-byte header: backing file name and extensions follow at once) over v2 and v3 backing images
+    for cb in (9, 12, 16) if quick else (9, 10, 12, 14, 16, 18):
+        for bver in (2, 3):
+            bsb = 9 if cb < 16 else 12
+            vc = 24 if cb <= 12 else 6
+            geo = dict(cb=cb, ro=4, bsb=bsb, vclusters=vc, params={})
+            top = S.image_shaped(rng, geo, 1, frac=0.4, kinds=("data", "comp"), version=2)
+            back = S.image_shaped(rng, geo, 2, frac=0.7, kinds=("data", "zero") if bver == 3 else ("data",), version=bver)
+            bpc = 1 << (cb - bsb)
+            steps = [{"op": "info"}, {"op": "mapall"}, {"op": "sweep"}, {"op": "write", "gb": rng.randrange(vc) * bpc, "n": 1},
+                     {"op": "sweep"}, {"op": "flush"}, {"op": "reopen"}, {"op": "sweep"}]
+            scens.append(S.mk(f"c09v2-cb{cb}-b{bver}", geo, [top, back], steps))
     # (b) what the library formats, over virtual sizes, cluster sizes, refcount widths, block sizes
     sizes_small = [1, 7, 64, 100]
     for cb in cbs:
@@ -1787,6 +1799,9 @@ def check_C14(chk):
             if not quick and len(c["m"]) == 2 and (ci + gi) % len(geos):
                 continue            # pairs are spread over the geometries
             images = [S.image_shaped(rng, geo, 1, frac=0.5, kinds=("data", "data", "zero", "comp"))]
+            if gname == "G1":
+                # nothing behind the first L2 table: the second L1 entry is empty
+                images[0]["desc"]["clusters"] = [c_ for c_ in images[0]["desc"]["clusters"] if c_["g"] < 60]
             v = geo["vclusters"] * bpc
             steps = [{"op": "info"}, {"op": "mapall"}, {"op": "check"}, {"op": "sweep"},
                      {"op": "write", "gb": rng.randrange(v), "n": 1}, {"op": "write", "gb": 0, "n": min(v, 2 * bpc + 1)},
